@@ -7,8 +7,9 @@ RULE = ('chunk cases: a sequence of byte-blob records (payload sizes 0 .. 70000 
         'buffer) dumped through the hook to a fault-injecting storage and read back through ExternalChunk; fault plans '
         'over the write calls (accept k of n, Ok(0), Interrupted, hard error) and the read calls (return k of n, '
         'Interrupted, hard error): every single fault at every call index exhaustively for a fixed record sequence, then '
-        'random multi-fault plans; writer bare (exact stored bytes and item sequence compared with the model), behind '
-        'BufWriter and behind the lz4 encoder (judged by the extracted outcome oracle chunk_oracle on the observed outcome); '
+        'random multi-fault plans; writer bare and behind BufWriter / reader bare and behind BufReader (both compared exactly with the model: stored bytes and '
+        'item sequence; BufWriter and BufReader are modelled in BufModel.v), and behind the lz4 encoder / decoder (judged by the '
+        'extracted outcome oracle chunk_oracle on the observed outcome); '
         'non-trivial = the plan actually fired (a short count, interrupt or error was delivered); distinct by case text')
 UNIQUE_NOTE = 'dump_ok / read_frames (bare storage: exact); chunk_oracle for the wrapped stacks'
 EXHAUSTIVE = {'quick': False, 'thorough': True}
@@ -70,7 +71,7 @@ def canon(case, out):
 
 def agree(case, impl, model):
     if 'oracle-only' in model:
-        return True          # decided by the oracle below
+        return True          # lz4 stack: decided by the oracle below
     return canon(case, impl) == canon(case, model)
 
 
